@@ -81,7 +81,7 @@ def record_case(draw):
         filt = field + op + v
     freq_tag = draw(st.sampled_from([None, "FR", "FR", "IR", "FA"]))
     return {"kind": "record", "ref": ref, "alts": alts, "fields": fields, "present": present, "refmasked": draw(st.integers(0, 4)) == 0,
-            "filter": filt, "frequency_tag": freq_tag}
+            "filter": filt, "frequency_tag": freq_tag, "dot_for_empty": draw(st.booleans())}
 
 
 HEADER = ("##fileformat=VCFv4.3\n##contig=<ID=chr1,length=100000>\n"
@@ -99,6 +99,8 @@ def parse_record(case):
     for k, vals in case["fields"].items():
         if case["present"][k] and vals:
             info.append(k + "=" + ",".join(vals))
+        elif case["present"][k] and not vals and case.get("dot_for_empty"):
+            info.append(k + "=.")  # an A-length field of a record without ALT alleles, as assemble writes AC=.
     if case["refmasked"]:
         info.append("REFMASKED")
     with open(path, "w") as fh:
@@ -147,6 +149,12 @@ def check_record(ctx, case):
     from mchap.io import LocusPrior
 
     problems = []
+    tag = case["frequency_tag"]
+    if tag and case.get("dot_for_empty") and case["present"][tag] and not case["fields"][tag]:
+        # an A-length tag written as '.' on an ALT-less record: one missing value, length coincides with the allele count;
+        # the documentation asks for an R-length field, behaviour here is unspecified
+        ctx.count("record:unspecified_missing_A_tag_skipped")
+        return problems
     exp = expected(case)
     on_value = False
     removes = False
@@ -226,13 +234,14 @@ def invalid_case(draw):
 @st.composite
 def cli_case(draw):
     spec = draw(D.dataset_spec(max_loci=3, max_snvs=3, max_samples=3, max_reads=12, mapq_values=(60,), flags=False, min_reads=1))
-    ploidy = {s: draw(st.sampled_from([2, 4])) for s in spec["samples"]}
+    ploidy = {s: draw(st.sampled_from([2, 4, 4])) for s in spec["samples"]}
     vectors = [[draw(st.sampled_from(["0", "0", "0.1", "0.25", "0.5", "0.05", "1"])) for _ in range(8)] for _ in range(3)]
     op = draw(st.sampled_from([">=", ">", "<=", "<", "!=", "="]))
     return {"kind": "cli", "spec": spec, "ploidy": ploidy, "vectors": vectors, "filter_op": op, "filter_pick": draw(st.integers(0, 20)),
             "use_prior": draw(st.booleans()), "use_filter": draw(st.booleans()), "all_zero_record": draw(st.integers(0, 3)) == 0,
             "threshold": draw(st.sampled_from([0.2, 0.9, 0.05])), "seed": draw(st.integers(1, 10000)),
-            "pedigree_parent": draw(st.booleans())}
+            "pedigree_parent": draw(st.booleans()), "filter_field": draw(st.sampled_from(["AFP", "AFP", "AC"])),
+            "inbreeding": {s: draw(st.sampled_from([0.0, 0.1, 0.3, 0.5])) for s in spec["samples"]}, "target_zero": draw(st.booleans())}
 
 
 def check_cli(ctx, case):
@@ -264,24 +273,39 @@ def check_cli(ctx, case):
             vec = [base[i % len(base)] for i in range(n_all)]
             if case["all_zero_record"] and ri == 0:
                 vec = ["0"] * n_all
+            elif case.get("target_zero"):
+                # zero prior on an ALT allele that some sample carries in >= 2 copies (well supported by its reads)
+                for col in c[9:]:
+                    gt = [a for a in col.split(":")[0].split("/") if a not in (".", "0")]
+                    dup = [a for a in set(gt) if gt.count(a) >= 2]
+                    if dup:
+                        vec = ["0.25" if v == "0" else v for v in vec]
+                        vec[int(sorted(dup)[0])] = "0"
+                        break
             ri += 1
             info = [kv for kv in c[7].split(";") if not kv.startswith("AFP=")] + ["AFP=" + ",".join(vec)]
             c[7] = ";".join(info)
             new_lines.append("\t".join(c))
-            inputs.append({"CHROM": c[0], "POS": int(c[1]), "REF": c[3], "ALT": [] if c[4] == "." else c[4].split(","), "AFP": vec, "REFMASKED": "REFMASKED" in c[7].split(";")})
+            ac = [kv[3:] for kv in c[7].split(";") if kv.startswith("AC=")][0]
+            inputs.append({"CHROM": c[0], "POS": int(c[1]), "REF": c[3], "ALT": [] if c[4] == "." else c[4].split(","), "AFP": vec, "REFMASKED": "REFMASKED" in c[7].split(";"),
+                           "AC": [] if ac == "." else ac.split(",")})
         hap = P.save_vcf("\n".join(new_lines) + "\n", os.path.join(wd, "haps.vcf"))
-        allv = sorted({v for r in inputs for v in r["AFP"]})
+        ffield = case.get("filter_field", "AFP")
+        allv = sorted({v for r in inputs for v in r[ffield]}) or ["0"]
         filt = None
         if case["use_filter"]:
-            filt = "AFP" + case["filter_op"] + allv[case["filter_pick"] % len(allv)]
+            filt = ffield + case["filter_op"] + allv[case["filter_pick"] % len(allv)]
         extra = ["--report", "AFPRIOR", "AFP", "AOP", "ACP", "GP"]
-        if case["use_prior"]:
+        if case["use_prior"] or case.get("target_zero"):
+            case = dict(case, use_prior=True)
             extra += ["--prior-frequencies", "AFP"]
         if filt:
             extra += ["--filter-input-haplotypes", filt]
         for name in ("call", "call-exact", "call-pedigree"):
             ex = list(extra)
             kw2 = dict(kw)
+            if name != "call-pedigree" and case.get("inbreeding"):
+                kw2["inbreeding"] = {s_: (v if (v > 0 or not case.get("target_zero")) else 0.3) for s_, v in case["inbreeding"].items()}  # with F > 0 a zero-prior allele is only excluded if it is really removed
             if name != "call-exact":
                 ex += ["--mcmc-seed", case["seed"]]
             if name == "call-pedigree":
@@ -304,7 +328,10 @@ def check_cli(ctx, case):
                     mask = inp["REFMASKED"]
                     if filt:
                         thr = Decimal(allv[case["filter_pick"] % len(allv)])
-                        keep = [OPS[case["filter_op"]](Decimal(x), thr) for x in inp["AFP"]]
+                        if ffield == "AFP":
+                            keep = [OPS[case["filter_op"]](Decimal(x), thr) for x in inp["AFP"]]
+                        else:  # A-length field: the reference is never tested
+                            keep = [True] + [OPS[case["filter_op"]](Decimal(x), thr) for x in inp["AC"]]
                         if not keep[0]:
                             mask, keep[0] = True, True
                     exp_alts = [a for a, k in zip(inp["ALT"], keep[1:]) if k]
@@ -376,4 +403,4 @@ def run(ctx):
     q = ctx.quick
     ctx.hyp("records", record_case(), check_record, 1500 if q else 10000)
     ctx.hyp("invalid", invalid_case(), check_invalid, 100 if q else 400)
-    ctx.hyp("cli", cli_case(), check_cli, 12 if q else 60)
+    ctx.hyp("cli", cli_case(), check_cli, 30 if q else 120)
